@@ -27,6 +27,8 @@ META = {
     "level_note": "Trusts CPython ast; the data-plane variable classification (filter parameters, evaluate()/get()/"
     "resolve() results and what is derived from them by iteration/subscript) is the rule's own table, printed in evidence.",
 }
+META["technique"] += '; no-call rule on data-plane values'
+META["level_text"] += ' Also decided (R4): no data-plane value is ever called.'
 
 PROTOCOL = {
     "__liquid__", "__html__", "__getitem__", "__getitem_async__", "force_liquid_default", "with_context",
